@@ -48,6 +48,10 @@ def gen_plan(rng, tier, focus):
         if leaves:
             l0 = leaves[0]
             fixed = [l0, ("N", l0), ("N", ("N", l0)), ("A", [l0]), ("O", [l0]), ("A", [l0, l0]), ("O", [l0, ("N", l0)]), ("A", [l0, ("N", l0)])]
+            l1 = leaves[-1]
+            # operators whose operands are all negations; repeated operands next to a different one
+            fixed += [("A", [("N", l0)]), ("A", [("N", l0), ("N", l1)]), ("O", [("N", l0), ("N", l1)]), ("O", [l0, l0, l1]), ("A", [l0, l0, l1]),
+                      ("O", [l1, l1, l0]), ("A", [l1, l1, l0]), ("O", [l0, l1, l1, l0])]
             if b"o" in vals:
                 fixed.append(("N", dp.e_eq(b"o", b"o1")))    # NOT over rows lacking the column
         def gb_for():
@@ -122,6 +126,20 @@ def gen_plan(rng, tier, focus):
     for sep in dp.SEPARATORS:
         ds = dp.prefix_dataset(new_id(), sep)
         plan.append((ds, add_queries(ds, 6, gb_mode)))
+    # value lengths 0..140 under column names of several lengths, two values per length that differ
+    # only in their last byte (plus the value one byte shorter): every total length of column +
+    # value around 16, 32, 64, 128 occurs, so a fixed-size buffer anywhere in the hashing shows
+    rows = []
+    for cname in (b"c", b"kk", b"column7", b"a_name_of_31_bytes_____________"):
+        for L in range(0, 141):
+            base = (b"0123456789abcdefghijklmnopqrstuvwxyzABCDEFGHIJKLMNOPQRSTUVWXYZ-_" * 3)[:max(0, L - 1)]
+            for last in ((b"a", b"b") if L > 0 else (b"",)):
+                rows.append({cname: base + last})
+    for PL in (200, 250, 254, 255, 256, 257, 300, 511, 512, 1000, 4096, 5000):
+        P = (b"http://example.org/some/long/path/segment/" * 130)[:PL]
+        rows += [{b"c": P + b"1", b"u": b"x"}, {b"c": P + b"2", b"u": b"x"}, {b"c": P + b"2", b"u": b"y"}, {b"c": P}]
+    ds = dp.Dataset(new_id(), rows, "length-ladder")
+    plan.append((ds, add_queries(ds, 4, gb_mode, per_value=True)))
     # the same in-memory writer flushed twice
     for n in ([5, 1200] if tier == "quick" else [5, 999, 1200, 2500]):
         ds = dp.shaped_dataset(rng, new_id(), n, unique=(focus != "count")) if n > 5 else dp.small_dataset(rng, new_id(), hostile=False)
